@@ -16,7 +16,9 @@ class LightSeams:
 
         import Crypto.Random as cr
         from dissect.cobaltstrike import c2, client, utils
-        logging.disable(logging.CRITICAL)
+        from dst import core as _core
+        if not _core.DEBUG_LOG_ON:
+            logging.disable(logging.CRITICAL)
         rng = _random.Random(int(self.run_seed, 16) ^ 0x5EED)
         self.rng = rng
         class _FixedTime:
